@@ -395,7 +395,7 @@ class Interp:
         return env
 
     def call_function(self, ctx, func, args, kwargs):
-        q = func.qualname
+        q = func.qualname + ('.setter' if func.is_setter else '')
         c = self.world.contract(q)
         cm = None if c is None else (c.call_model or c.model)
         if cm is not None and q not in ctx.no_model and q != ctx.verifying:
